@@ -15842,11 +15842,16 @@ func (p *PathAttributePmsiTunnel) Serialize(options ...*MarshallingOption) ([]by
 		return nil, err
 	}
 	buf = append(buf, tbuf...)
-	tbuf, err = p.TunnelID.Serialize()
-	if err != nil {
-		return nil, err
+	// TunnelID is nil when DecodeFromBytes rejected the attribute before
+	// reaching the tunnel identifier; such an attribute is still kept in
+	// the UPDATE for treat-as-withdraw handling.
+	if p.TunnelID != nil {
+		tbuf, err = p.TunnelID.Serialize()
+		if err != nil {
+			return nil, err
+		}
+		buf = append(buf, tbuf...)
 	}
-	buf = append(buf, tbuf...)
 	return p.PathAttribute.Serialize(buf, options...)
 }
 
@@ -15861,6 +15866,10 @@ func (p *PathAttributePmsiTunnel) String() string {
 }
 
 func (p *PathAttributePmsiTunnel) MarshalJSON() ([]byte, error) {
+	tunnelID := ""
+	if p.TunnelID != nil {
+		tunnelID = p.TunnelID.String()
+	}
 	return json.Marshal(struct {
 		Type               BGPAttrType `json:"type"`
 		IsLeafInfoRequired bool        `json:"is-leaf-info-required"`
@@ -15872,7 +15881,7 @@ func (p *PathAttributePmsiTunnel) MarshalJSON() ([]byte, error) {
 		IsLeafInfoRequired: p.IsLeafInfoRequired,
 		TunnelType:         uint8(p.TunnelType),
 		Label:              p.Label,
-		TunnelID:           p.TunnelID.String(),
+		TunnelID:           tunnelID,
 	})
 }
 
